@@ -79,6 +79,31 @@ var pinnedCases = []pinnedCase{
 	{"C16", "tonumber-0x-with-base-16", `return tonumber("0x10",16), tonumber("ff",16), tonumber("0x",16)`, "16|255|nil", nil},
 	{"C02", "select-count-marker", `return select("#x",1,2)`, "2", nil},
 	{"C20", "not-found-message-format", `package.path="./?.lua" local ok,msg=pcall(require,"zzz") return ok,(msg:match("module.*$"):gsub("\n\t",";"))`, "false|module 'zzz' not found:;no field package.preload['zzz'];no file './zzz.lua'", nil},
+	// sixth batch
+	{"C19", "setvbuf-keeps-pending-bytes", `local f = io.open("$F", "w") f:setvbuf("full", 1024) f:write("abc") f:setvbuf("no") f:write("def") f:setvbuf("full", 16) f:write("ghi") f:setvbuf("full", 64) f:write("jkl") f:close() local g = io.open("$F") local s = g:read("*a") g:close() return s`, "abcdefghijkl", nil},
+	{"C19", "setvbuf-line-mode", `local f = io.open("$F", "w") local ok = pcall(f.setvbuf, f, "line") f:write("abc\n") f:write("de") f:close() local g = io.open("$F") local s = g:read("*a") g:close() return ok, s`, "true|abc\nde", nil},
+	{"C19", "failed-number-read-is-one-nil", `local f = io.open("$F", "w") f:write("a\nXY\n") f:close() f = io.open("$F") local n = select("#", f:read("*l", "*n", "*l")) f:seek("set", 0) local a, b = f:read("*l", "*n") f:seek("end") local m = select("#", f:read("*n")) f:close() return n, a, b, m`, "2|a|nil|1", nil},
+	{"C19", "read-format-errors", `local f = io.open("$F") local r = {pcall(f.read, f, "*x"), pcall(f.read, f, "*"), pcall(f.read, f, ""), pcall(f.read, f, "l")} f:close() return r[1], r[2], r[3], r[4]`, "false|false|false|false", nil},
+	{"C16", "tonumber-number-with-base", `return tonumber(10, 16), tonumber(1e1, 2), tonumber(10), tonumber(10, 10), tonumber(1.5, 16), tonumber(9, 8), tonumber("10", 16), tonumber(255, 36)`, "16|2|10|10|nil|nil|16|2777", nil},
+	{"C06", "wrap-prepends-caller-position", "local co = coroutine.wrap(function() error(\"boom\", 0) end)\nlocal ok, e = pcall(function()\n co() end)\nlocal co2 = coroutine.wrap(function() error(\"b2\", 0) end)\nlocal ok2, e2 = pcall(co2)\nlocal co3 = coroutine.wrap(function() error({}, 0) end)\nlocal ok3, e3 = pcall(function() co3() end)\nreturn (e:gsub(\"^.-:\", \"\")), e2, type(e3)", "3: boom|b2|table", nil},
+	{"C17", "wrap-prepends-caller-position-to-positioned-message", "local co = coroutine.wrap(function()\n error(\"lvl1\") end)\nlocal ok, e = pcall(function()\n\n co() end)\nreturn (e:gsub(\"[^:]*:(%d+): \", \"%1>\"))", "5>2>lvl1", nil},
+	{"C12", "registry-overflow-in-the-resumer-keeps-the-coroutine-consistent", `local t = {} for i = 1, 4000 do t[i] = i end
+local co
+local function mk() return coroutine.create(function() local x = 1 local function get() return x end local a = coroutine.yield(unpack(t)) x = 2 local b = coroutine.yield("second", a, get()) return "end", b end) end
+local function deep(n) local a1, a2, a3, a4, a5, a6, a7, a8, a9, a10 = 1, 2, 3, 4, 5, 6, 7, 8, 9, 10 if n == 0 then return pcall(function() return select("#", coroutine.resume(co)) end) end local r1, r2 = deep(n - 1) return r1, r2, a1 end
+local caught
+for depth = 50, 230, 10 do co = mk() local ok, e = deep(depth) if not ok then caught = tostring(e):match("registry overflow") break end end
+local s1 = coroutine.status(co)
+local ok2, tag2, a2, x2 = coroutine.resume(co, "A")
+local ok3, tag3, b3 = coroutine.resume(co, "B")
+return caught, s1, ok2, tag2, a2, x2, ok3, tag3, b3, coroutine.status(co)`, "registry overflow|suspended|true|second|A|2|true|end|B|dead", nil},
+	{"C18", "remove-from-empty-list-returns-nothing", `local t = {10, 20, 30} return select("#", table.remove({})), select("#", table.remove({}, nil)), select("#", table.remove({}, 1)), select("#", table.remove({1, 2}, 5)), table.remove(t), table.remove(t, 1), table.remove(t), select("#", table.remove(t)), #t`, "0|0|0|0|30|10|20|0|0", nil},
+	{"C17", "loadfile-skips-a-first-line-starting-with-hash", `local f = io.open("$F", "w") f:write("#!/usr/bin/env lua\nlocal x = 1\nerror(\"at line 3\")\n") f:close() local fn, e = loadfile("$F") if not fn then return "load failed: " .. tostring(e) end local ok, m = pcall(fn) local g = io.open("$F", "w") g:write("#!x\nreturn debug.getinfo(1, \"l\").currentline, ...") g:close() return ok, (m:gsub("^.*:(%d+): ", "%1: ")), loadfile("$F")("a")`, "false|3: at line 3|2|a", nil},
+	{"C17", "hidden-for-variables-inactive-in-the-init-expressions", `local out = {}
+local function probe(ret) local names, i = {}, 1 while true do local n = debug.getlocal(2, i) if not n then break end names[#names + 1] = n i = i + 1 end out[#out + 1] = table.concat(names, " ") return ret end
+local function f() local a, b = 1, 2 for i = probe(1), probe(1), probe(1) do local c = 3 probe() end for k, v in probe(next), {x = 1} do probe() end end
+f()
+return out[1], out[2], out[3], out[4], out[5], out[6]`, "a b|a b (*temporary)|a b (*temporary) (*temporary)|a b (for index) (for limit) (for step) i c|a b|a b (for generator) (for state) (for control) k v", nil},
 	// re-entrancy: a library function whose callback runs the same library function again (each case
 	// twice in one chunk: scratch state left by the first round must not leak into the second)
 	{"C14", "reentrant/gsub-function-inside-gsub-function", `local function up(w) return (w:gsub("%a", function(c) return c:upper() end)) end local function run() return (("ab cd ef"):gsub("%a+", function(w) return "<" .. up(w) .. ">" end)) end local a = run() local b = run() return a, b, (("x y z w"):gsub("%a", function(c) return (c .. c):gsub("%a", function(d) return d:upper() end) end))`, "<AB> <CD> <EF>|<AB> <CD> <EF>|XX YY ZZ WW", nil},
@@ -337,6 +362,60 @@ func pinnedGoAPI5(r *harness.Run, prop string) {
 		})
 	}
 	if prop == "C06" {
+		check("goapi/resume-on-the-handle-of-a-wrapped-coroutine", func(L *lua.LState) string {
+			if err := L.DoString(`w = coroutine.wrap(function(a) th = coroutine.running() local b = coroutine.yield(a + 1) local c = coroutine.yield(b + 1) error("boom", 0) end) first = w(1)`); err != nil {
+				return err.Error()
+			}
+			th := L.GetGlobal("th").(*lua.LState)
+			st, err, vals := L.Resume(th, nil, lua.LNumber(10))
+			if st != lua.ResumeYield || err != nil || len(vals) != 1 || vals[0] != lua.LNumber(11) {
+				return fmt.Sprintf("first Resume: %v %v %v, expected yield [11]", st, err, vals)
+			}
+			st, err, vals = L.Resume(th, nil, lua.LNumber(20))
+			if ae, ok := err.(*lua.ApiError); st != lua.ResumeError || !ok || ae.Object != lua.LString("boom") || vals != nil {
+				return fmt.Sprintf("second Resume: %v %v %v, expected the error value boom", st, err, vals)
+			}
+			if err := L.DoString(`local w2 = coroutine.wrap(function() error("x", 0) end) local ok, e = pcall(w2) assert(ok == false and e == "x", tostring(e))`); err != nil {
+				return "a wrap function must still raise in its caller: " + err.Error()
+			}
+			return ""
+		})
+		for _, withFn := range []bool{false, true} {
+			withFn := withFn
+			check(fmt.Sprintf("goapi/resume-on-a-thread-made-by-coroutine.create/fn=%v", withFn), func(L *lua.LState) string {
+				if err := L.DoString(`other_ran = false function other() other_ran = true end co = coroutine.create(function(a, b) local c = coroutine.yield(a + b) return "done", c end)`); err != nil {
+					return err.Error()
+				}
+				co := L.GetGlobal("co").(*lua.LState)
+				var fn *lua.LFunction
+				if withFn {
+					fn = L.GetGlobal("other").(*lua.LFunction)
+				}
+				st, err, vals := L.Resume(co, fn, lua.LNumber(1), lua.LNumber(2))
+				if st != lua.ResumeYield || err != nil || len(vals) != 1 || vals[0] != lua.LNumber(3) {
+					return fmt.Sprintf("first Resume: %v %v %v, expected yield [3]", st, err, vals)
+				}
+				st, err, vals = L.Resume(co, fn, lua.LString("x"))
+				if st != lua.ResumeOK || err != nil || len(vals) != 2 || vals[0] != lua.LString("done") || vals[1] != lua.LString("x") {
+					return fmt.Sprintf("second Resume: %v %v %v, expected ok [done x]", st, err, vals)
+				}
+				if L.GetGlobal("other_ran") != lua.LFalse {
+					return "the function given to Resume ran instead of the thread's own body"
+				}
+				if err := L.DoString(`assert(coroutine.status(co) == "dead")`); err != nil {
+					return err.Error()
+				}
+				return ""
+			})
+		}
+		check("goapi/resume-new-thread-without-function", func(L *lua.LState) string {
+			co, _ := L.NewThread()
+			st, err, _ := L.Resume(co, nil)
+			if st != lua.ResumeError || err == nil {
+				return fmt.Sprintf("Resume(newthread, nil): %v %v, expected an error result", st, err)
+			}
+			return ""
+		})
 		check("goapi/refused-resume-leaves-no-frame", func(L *lua.LState) string {
 			if err := L.DoString(`count = 0 function body(...) count = count + 1 coroutine.yield() return "done" end`); err != nil {
 				return err.Error()
